@@ -165,6 +165,10 @@ def stage_view_corr(ctx: Ctx):
         ops_c, obs = [], []
         nops = rng.randrange(1, 9)
         opnames = []
+        # independent Python-list mirror of (field, window): the property itself, no model involved
+        mF = list(ids)
+        mws, mwe = st, sp
+        mirror_log = []
         cur_len = lambda: len(getids())
         ok_case = True
         for _ in range(nops):
@@ -173,49 +177,90 @@ def stage_view_corr(ctx: Ctx):
             L = len(view)
             ri = lambda: rng.randrange(-L - 2, L + 3)
             err = False
+            # heal the mirror window the way a Python slice object would clip
+            m_we = len(mF) if mwe is None else min(mwe, len(mF))
+            m_ws = min(mws, m_we)
+            mpre, mwin, mpost = mF[:m_ws], mF[m_ws:m_we], mF[m_we:]
+            mexp_err = False
+            mdesc = None
             try:
                 if k == 'setslice':
                     a, b = ri(), rng.choice([ri(), 'end'])
                     new = fresh(rng.randrange(0, 3))
                     ops_c.append(f'OSetSlice {cz(a)} {cidx(b)} {clz(new)}')
+                    mdesc = ('setslice', a, b, new)
+                    ca, cb, _ = slice(a, None if b == 'end' else b).indices(len(mwin))
+                    if cb < ca:
+                        mexp_err = True
+                    else:
+                        mwin[ca:cb] = new
                     view[a:(None if b == 'end' else b)] = mk(new)
                 elif k == 'setone':
                     i = ri()
                     x = fresh(1)[0]
                     ops_c.append(f'OSetOne {cz(i)} {cz(x)}')
+                    mdesc = ('setone', i, x)
+                    if -len(mwin) <= i < len(mwin):
+                        mwin[i] = x
+                    else:
+                        mexp_err = True
                     view[i] = one(x)
                 elif k == 'delslice':
                     a, b = ri(), rng.choice([ri(), 'end'])
                     ops_c.append(f'ODelSlice {cz(a)} {cidx(b)}')
+                    mdesc = ('delslice', a, b)
+                    ca, cb, _ = slice(a, None if b == 'end' else b).indices(len(mwin))
+                    if cb < ca:
+                        mexp_err = True
+                    else:
+                        del mwin[ca:cb]
                     del view[a:(None if b == 'end' else b)]
                 elif k == 'delone':
                     i = ri()
                     ops_c.append(f'ODelOne {cz(i)}')
+                    mdesc = ('delone', i)
+                    if -len(mwin) <= i < len(mwin):
+                        del mwin[i]
+                    else:
+                        mexp_err = True
                     del view[i]
                 elif k == 'insert':
                     i = rng.choice([ri(), 'end'])
                     new = fresh(rng.randrange(1, 3))
                     ops_c.append(f'OInsert {cidx(i)} {clz(new)}')
+                    mdesc = ('insert', i, new)
+                    kk = len(mwin) if i == 'end' else slice(i, None).indices(len(mwin))[0]
+                    mwin[kk:kk] = new
                     view.insert(mk(new), i, one=False)
                 elif k == 'append':
                     x = fresh(1)[0]
                     ops_c.append(f'OAppend {cz(x)}')
+                    mdesc = ('append', x)
+                    mwin.append(x)
                     view.append(one(x))
                 elif k == 'extend':
                     new = fresh(rng.randrange(1, 3))
                     ops_c.append(f'OExtend {clz(new)}')
+                    mdesc = ('extend', new)
+                    mwin.extend(new)
                     view.extend(mk(new))
                 elif k == 'prepend':
                     x = fresh(1)[0]
                     ops_c.append(f'OPrepend {cz(x)}')
+                    mdesc = ('prepend', x)
+                    mwin.insert(0, x)
                     view.prepend(one(x))
                 elif k == 'prextend':
                     new = fresh(rng.randrange(1, 3))
                     ops_c.append(f'OPrextend {clz(new)}')
+                    mdesc = ('prextend', new)
+                    mwin[0:0] = new
                     view.prextend(mk(new))
                 elif k == 'replace':
                     new = fresh(rng.randrange(0, 3))
                     ops_c.append(f'OReplace {clz(new)}')
+                    mdesc = ('replace', new)
+                    mwin[:] = new
                     view.replace(mk(new), one=False)
                 else:  # external change through the node itself
                     allids = getids()
@@ -223,11 +268,14 @@ def stage_view_corr(ctx: Ctx):
                     b = rng.randrange(a, len(allids) + 1)
                     new = fresh(rng.randrange(0, 3))
                     exp = allids[:a] + new + allids[b:]
+                    mdesc = ('external', a, b, new)
                     if kind != 'elts' and not exp:
                         ops_c.append(f'OExternal {clz(allids)}')
+                        mpre, mwin, mpost = allids, [], []
                     else:
                         base.put_slice(mk(new), a, b, field)
                         ops_c.append(f'OExternal {clz(getids())}')
+                        mpre, mwin, mpost = exp, [], []   # the field changed behind the view: window re-clipped below
             except IndexError:
                 err = True
             except Exception as e:  # refusals of the real implementation unrelated to window arithmetic (e.g. empty body)
@@ -243,6 +291,24 @@ def stage_view_corr(ctx: Ctx):
                 ops_c.pop()
                 break
             obs.append(f'({cbool(err)}, {clz(getids())}, {clz(item_ids)})')
+            # ---- judge against the mirror
+            mirror_log.append(mdesc)
+            if mdesc and mdesc[0] == 'external':
+                mF = mpre
+            elif not err and not mexp_err:
+                mF = mpre + mwin + mpost
+                mws = m_ws
+                if mwe is not None:
+                    mwe = m_ws + len(mwin)
+            n_we = len(mF) if mwe is None else min(mwe, len(mF))
+            n_ws = min(mws, n_we)
+            if (mdesc and mdesc[0] != 'external' and err != mexp_err) or getids() != mF or item_ids != mF[n_ws:n_we]:
+                ctx.violation(f'view|{kind}|{mdesc[0] if mdesc else "?"}', 'a view operation is not the Python list operation on its window (or touched the field outside it)',
+                              {'field_kind': kind, 'initial_ids': ids, 'view_start': st, 'view_stop': sp, 'ops': mirror_log,
+                               'expected_field': mF, 'got_field': getids(), 'expected_items': mF[n_ws:n_we], 'got_items': item_ids,
+                               'raised_IndexError': err, 'expected_IndexError': mexp_err})
+                ok_case = False
+                break
         if not ops_c or not obs:
             continue
         n_ops = len(obs)
@@ -270,7 +336,9 @@ def stage_view_corr(ctx: Ctx):
 def norm_msg(msg: str) -> str:
     msg = re.sub(r"'[^']*'", "'_'", msg)
     msg = re.sub(r'\d+', 'N', msg)
-    return msg[:70]
+    msg = re.sub(r'got \w+', 'got _', msg)
+    msg = re.sub(r'\(<FST>.*', '', msg)
+    return msg[:60].strip()
 
 
 def py_norm(L, s, e):
@@ -298,16 +366,16 @@ def stage_api(ctx: Ctx):
     refusals = {}
     learn = os.environ.get('C03_LEARN_REFUSALS') == '1'
     for c in CONTAINERS:
-        for it in range(per):
+        for it in range(per * c.weight):
             n = rng.randint(c.min_len, 5)
             olds = pick_elems(c, rng, n)
             n = len(olds)
             src = render_ok(c, olds)
             if src is None:
                 continue
-            if rng.random() < 0.3:
+            if rng.random() < (0.6 if c.weight > 1 else 0.3):
                 src = relayout(src, rng)
-            single = c.one_ok and n > 0 and rng.random() < 0.3
+            single = c.one_ok and n > 0 and rng.random() < (0.5 if c.weight > 1 else 0.3)
             if single:
                 i = rng.randrange(-n, n)
                 news = pick_elems(c, rng, rng.choice([0, 1, 1]), avoid=set(olds))
@@ -447,8 +515,8 @@ def stage_api(ctx: Ctx):
                 ctx.sample({'api_case': desc, 'result_src': m.src})
     ctx.extra['refusal_classes'] = {'|'.join(k): v for k, v in sorted(refusals.items())}
     if learn:
-        with open(ALLOW, 'w') as f:
-            json.dump(sorted(set(allow) | set(refusals)), f, indent=0)
+        with open(ALLOW + f'.{ctx.seed}.{ctx.tier}.part', 'w') as f:
+            json.dump(sorted(set(refusals)), f)
 
 
 def run(ctx: Ctx):
@@ -458,11 +526,14 @@ def run(ctx: Ctx):
                 'layout, code form, entry point); distinct = tuple of those; non-trivial = the request was carried out and compared')
     ctx.assumptions += ['CPython ast.parse is the reference for structure', 'render(old[:s]+new+old[e:]) is the expected program',
                         'refusal classes on the unchanged tree are listed in py/props/C03_refusals_allow.json (ordering rules of arguments/keywords)']
+    if os.environ.get('C03_LEARN_REFUSALS') == '1':
+        run_guarded(ctx, stage_api)
+        return
     ok = stage_translate(ctx)
     if ok:
         ctx.build_props()
-        run_guarded(ctx, stage_fixups_corr)
-        run_guarded(ctx, stage_view_corr)
+    run_guarded(ctx, stage_fixups_corr)
+    run_guarded(ctx, stage_view_corr)
     run_guarded(ctx, stage_api)
 
 
